@@ -52,7 +52,7 @@ def run_one(base, chk, routine, state, n=None, dup=False):
             pts[1] = pts[0]
         ss, so = h.ptr_slice(path, [s[0] for s in sc], "Scalar")
         ps_, po = h.ptr_slice(path, pts, "Point")
-        v = recv_obj(h, path, state, pts[0] if n else None)
+        v = recv_obj(h, path, "alias" if state == "alias_last" else state, (pts[-1] if state == "alias_last" else pts[0]) if n else None)
         want = {}
         for i in range(n):
             g = "Q0" if (dup and i == 1) else "Q%d" % i
@@ -94,6 +94,8 @@ def run(chk):
         for st in (("zero", "other", "alias") if n else ("zero", "other")):
             heavy.append(("VarTimeMultiScalarMult n=%d %s" % (n, st), lambda n=n, st=st: run_one(base, chk, "VarTimeMultiScalarMult", st, n)))
     if maxn >= 2:
+        heavy.append(("VarTimeMultiScalarMult alias_last", lambda: run_one(base, chk, "VarTimeMultiScalarMult", "alias_last", 2)))
+        heavy.append(("MultiScalarMult alias_last", lambda: run_one(base, chk, "MultiScalarMult", "alias_last", maxn)))
         heavy.append(("VarTimeMultiScalarMult dup", lambda: run_one(base, chk, "VarTimeMultiScalarMult", "other", 2, True)))
         heavy.append(("MultiScalarMult dup", lambda: run_one(base, chk, "MultiScalarMult", "zero", 2, True)))
     light = []
